@@ -94,6 +94,33 @@ def wellformed(p):
     return mk('wellformed', ints('v', nsym), pre, body)
 
 
+def nested_alloc(p):
+    """index allocation under nesting: group_by(outer) > split(segment) > group_by(inner) > count.  Outer group A opens a segment with one inner group and keeps it
+    (a low index stays live); outer group B opens a segment with G inner groups, closes it (G indices released above a live one), and opens another with a
+    few inner groups, twice.  The inner keys of B's later segments and one segment boundary are symbolic.  Every boundary must stay well-formed: in particular
+    no two live keys may share a slot index, whatever the store does with released indices"""
+    G = p['g']
+
+    def body(a):
+        k0, k1, s0 = a
+        items = [('A', 0, 0, 1)] + [('B', 0, j, 2) for j in range(G)] + [('B', 1, 0 if k0 <= 0 else 1, 3), ('B', 1, 2 if k1 <= 0 else 3, 4), ('A', 0, 1, 5),
+                                                                        ('B', 1 if s0 <= 0 else 2, 5, 6), ('B', 2, 6, 7), ('A', 1, 0, 8)]
+        m = Monitor()
+        inner = [m.tap('inner-head'), rs.ops.count(), m.tap('inner-tail')]
+        seg = [m.tap('segment-head'), rs.ops.group_by(lambda i: i[2], inner), m.tap('segment-tail')]
+        outer = [m.tap('outer-head'), rs.data.split(lambda i: i[1], seg), m.tap('outer-tail')]
+        out = []
+        D.src(items).pipe(rs.state.with_memory_store([rs.ops.group_by(lambda i: i[0], outer), m.tap('tail')])).subscribe(
+            on_next=out.append, on_error=lambda e: out.append(('ERR', type(e).__name__)), on_completed=lambda: out.append(D.END))
+        fl = m.flags()
+        if fl:
+            return fail(inner_groups=G, items=items, flags=fl[:5])
+        if not out or out[-1] != D.END:
+            return fail(inner_groups=G, items=items, flags='stream did not complete', out=out[-3:])
+        return True
+    return mk('nested_alloc', [('k0', 'int'), ('k1', 'int'), ('s0', 'int')], ['0 <= k0 <= 1', '0 <= k1 <= 1', '0 <= s0 <= 1'], body)
+
+
 class _Boom(Exception):
     pass
 
@@ -147,7 +174,7 @@ def raising(p):
     return mk('raising_' + kind, ints('v', n), pre, body)
 
 
-FAMILIES = {'wellformed': wellformed, 'raising': raising}
+FAMILIES = {'nested_alloc': nested_alloc, 'wellformed': wellformed, 'raising': raising}
 
 LEAFS = [[['to_list_sum']], [['filter_even'], ['count_r']], [['identity']], [['take1'], ['last']]]
 
@@ -199,6 +226,8 @@ def obligations(tier, seed):
     for (w, s, n) in ((257, 129, 259), (9, 1, 10), (300, 300, 301), (257, 64, 260)):
         obs.append(Ob(PROP, 'wellformed', dict(desc=[['roll', w, s, [['count_r']]]], n=n, nsym=2), budget=b * 3, group='roll_big', bound=dict(w=w, s=s, items=n)))
     obs.append(Ob(PROP, 'wellformed', dict(desc=[['roll', 9, 1, [['group', 'mod3', [['count_r']]]]]], n=10, nsym=2), budget=b * 3, group='roll_big', bound=dict(w=9, s=1, items=10, inner='group_by')))
+    for g in ((3, 10, 18) if q else (2, 3, 9, 10, 17, 18, 34, 66)):
+        obs.append(Ob(PROP, 'nested_alloc', dict(g=g), budget=b * 3, group='nested index allocation', bound=dict(pipeline='group_by > split > group_by > count', inner_groups_released_at_once=g, symbolic='two inner keys and one segment boundary')))
     for d in programs(tier, seed):
         br = C.branching(d)
         for n in ((0, 3) if q else (0, 2, 4)):
